@@ -683,3 +683,296 @@ Proof.
   exists (tt_of_multiset [([], 5); ([97], 4)]), (tt_of_multiset [([], 3); ([97], 1)]).
   split; [reflexivity|split; [reflexivity|]]. vm_compute. discriminate.
 Qed.
+
+(* ---------------------------------------------------------------------------------------------- *)
+(* Iterate as a multiset: the counts reported for a key add up to its denotation (no hypothesis) *)
+
+Lemma ms_count_app l1 l2 k : ms_count (l1 ++ l2) k = ms_count l1 k + ms_count l2 k.
+Proof.
+  unfold ms_count. rewrite filter_app, map_app. induction (map snd (filter _ l1)) as [|x l IH]; cbn; [reflexivity|].
+  cbn in IH. unfold sumN in *. lia.
+Qed.
+
+Lemma beqb_false_iff a b : beqb a b = false <-> a <> b.
+Proof. rewrite <- beqb_true_iff. destruct (beqb a b); split; congruence. Qed.
+
+Lemma ms_count_flat_map {A} (f : A -> list (bytes * N)) l K :
+  ms_count (flat_map f l) K = sumN (map (fun x => ms_count (f x) K) l).
+Proof.
+  induction l as [|x l IH]; [reflexivity|]. cbn [flat_map map]. rewrite ms_count_app, IH. reflexivity.
+Qed.
+
+Lemma sumN_map_ext {A} (f g : A -> N) l : (forall x, In x l -> f x = g x) -> sumN (map f l) = sumN (map g l).
+Proof.
+  induction l as [|x l IH]; intros H; [reflexivity|]. cbn. rewrite (H x) by now left.
+  unfold sumN in IH. rewrite IH; [reflexivity|]. intros y Hy. apply H. now right.
+Qed.
+
+Lemma ms_count_iter_all t : forall p K,
+  ms_count (tt_iter_all p t) K =
+  match strip_prefix (p ++ tt_name t) K with Some k => tt_den t k | None => 0 end.
+Proof.
+  induction t as [n v ch IH] using ttnode_ind'. intros p K. cbn [tt_iter_all tt_name].
+  rewrite ms_count_cons, ms_count_flat_map. cbn [fst snd].
+  rewrite Forall_forall in IH.
+  destruct (strip_prefix (p ++ n) K) as [k|] eqn:S.
+  - apply strip_prefix_some in S. subst K. rewrite tt_den_unfold.
+    assert (Hb : beqb (p ++ n) ((p ++ n) ++ k) = is_nil k).
+    { destruct k as [|k0 k]; cbn [is_nil].
+      - rewrite app_nil_r. apply beqb_refl.
+      - apply beqb_false_iff. intros E. rewrite <- (app_nil_r (p ++ n)) in E at 1.
+        apply app_inv_head in E. discriminate. }
+    rewrite Hb. f_equal. unfold den_ch. apply sumN_map_ext. intros c Hc.
+    rewrite (IH c Hc). rewrite strip_prefix_app, strip_prefix_self. reflexivity.
+  - assert (Hb : beqb (p ++ n) K = false).
+    { apply beqb_false_iff. intros E. subst K.
+      pose proof (strip_prefix_self (p ++ n) []) as S'. rewrite app_nil_r in S'. congruence. }
+    rewrite Hb. replace (sumN _) with 0; [reflexivity|].
+    symmetry. rewrite (sumN_map_ext _ (fun _ => 0)).
+    + induction ch; [reflexivity|]. cbn. apply IHch. intros; apply IH; now right.
+    + intros c Hc. rewrite (IH c Hc), strip_prefix_app, S. reflexivity.
+Qed.
+
+Lemma ms_count_filter_pos l K : ms_count (filter (fun kv => 0 <? snd kv) l) K = ms_count l K.
+Proof.
+  induction l as [|[k v] l IH]; [reflexivity|]. cbn [filter snd].
+  destruct (N.ltb_spec 0 v).
+  - rewrite !ms_count_cons, IH. reflexivity.
+  - rewrite ms_count_cons, IH. cbn [fst snd]. destruct (beqb k K); lia.
+Qed.
+
+(* the counts Iterate reports for a key add up to the key's denotation; no hypothesis on the trie *)
+Theorem ms_count_iterate t K : tt_name t = [] -> ms_count (tt_iterate t) K = tt_den t K.
+Proof.
+  intros Hroot. unfold tt_iterate. rewrite ms_count_filter_pos, ms_count_iter_all, Hroot. reflexivity.
+Qed.
+
+Lemma tt_iterate_pos t K v : In (K, v) (tt_iterate t) -> 0 < v.
+Proof. unfold tt_iterate. rewrite filter_In. cbn. intros [_ H]. lia. Qed.
+
+(* ---------------------------------------------------------------------------------------------- *)
+(* mapping the values (scaling on serialization) *)
+
+Lemma tt_map_values_name g t : tt_name (tt_map_values g t) = tt_name t.
+Proof. destruct t; reflexivity. Qed.
+
+Lemma fbs_map_values g ch : fbs (map (tt_map_values g) ch) = fbs ch.
+Proof.
+  unfold fbs. rewrite map_map. apply map_ext. intros c. unfold first_byte. now rewrite tt_map_values_name.
+Qed.
+
+Lemma tt_map_values_wf g t : tt_wf t -> tt_wf (tt_map_values g t).
+Proof.
+  induction t as [n v ch IH] using ttnode_ind'. intros H. apply tt_wf_unfold in H. destruct H as [H1 H2].
+  cbn [tt_map_values]. apply tt_wf_unfold. rewrite fbs_map_values. split; [exact H1|].
+  rewrite Forall_forall in *. intros c' Hc'. apply in_map_iff in Hc'. destruct Hc' as (c & <- & Hc). auto.
+Qed.
+
+Lemma opt_byte_dec (a b : option byte) : {a = b} + {a <> b}.
+Proof. decide equality. apply N.eq_dec. Defined.
+
+Lemma tt_map_values_den g t : g 0 = 0 -> forall k, tt_wf t -> tt_den (tt_map_values g t) k = g (tt_den t k).
+Proof.
+  intros Hg. induction t as [n v ch IH] using ttnode_ind'. intros k Hwf.
+  pose proof Hwf as Hwf0. apply tt_wf_unfold in Hwf. destruct Hwf as [[Hn Hd] Hall].
+  destruct k as [|b k].
+  - rewrite (tt_den_nil _ (tt_map_values_wf g _ Hwf0)), (tt_den_nil _ Hwf0). reflexivity.
+  - cbn [tt_map_values]. destruct (in_dec opt_byte_dec (Some b) (fbs ch)) as [Hin|Hnin].
+    + unfold fbs in Hin. apply in_map_iff in Hin. destruct Hin as (c & Hfc & Hc).
+      apply in_split in Hc. destruct Hc as (l1 & l2 & ->).
+      rewrite (den_via_lead n v l1 c l2 b k Hwf0 Hfc).
+      rewrite map_app. cbn [map].
+      assert (Hwm : tt_wf (TT n (g v) (map (tt_map_values g) l1 ++ tt_map_values g c :: map (tt_map_values g) l2))).
+      { pose proof (tt_map_values_wf g _ Hwf0) as W. cbn [tt_map_values] in W. now rewrite map_app in W. }
+      rewrite (den_via_lead n (g v) _ (tt_map_values g c) _ b k Hwm)
+        by (unfold first_byte in *; now rewrite tt_map_values_name).
+      unfold under. rewrite tt_map_values_name.
+      apply Forall_app in IH. destruct IH as [_ IH]. inversion IH as [|? ? IHc _]; subst.
+      apply Forall_app in Hall. destruct Hall as [_ Hall]. inversion Hall as [|? ? Hwc _]; subst.
+      destruct (strip_prefix (tt_name c) (b :: k)); [apply IHc, Hwc|now rewrite Hg].
+    + rewrite !tt_den_unfold. cbn [is_nil]. rewrite !den_ch_other; try assumption; try (rewrite fbs_map_values; assumption).
+      cbn. now rewrite Hg.
+Qed.
+
+(* ---------------------------------------------------------------------------------------------- *)
+(* Serialize / Deserialize *)
+From Pyro Require Import Proofs.VarintProofs.
+
+Definition parse_kids (f : nat) :=
+  fix kids (n : nat) (acc : list ttnode) (bs : bytes) {struct n} : option (list ttnode * bytes) :=
+    match n with
+    | O => Some (acc, bs)
+    | S n' => match tt_parse f bs with
+              | None => None
+              | Some (c, bs') => kids n' (ch_insert c acc) bs'
+              end
+    end.
+
+Lemma tt_parse_S f bs : tt_parse (S f) bs =
+  match uvarint_dec bs with None => None | Some (nl, bs1) =>
+  if Nlen bs1 <? nl then None else
+  match take_bytes (N.to_nat nl) bs1 with None => None | Some (name, bs2) =>
+  match uvarint_dec bs2 with None => None | Some (v, bs3) =>
+  match uvarint_dec bs3 with None => None | Some (nc, bs4) =>
+  if Nlen bs4 <? nc then None else
+  match parse_kids f (N.to_nat nc) [] bs4 with
+  | None => None
+  | Some (ch, rest) => Some (TT name v ch, rest)
+  end end end end end.
+Proof. reflexivity. Qed.
+
+Lemma uvarint_enc_len n : (1 <= length (uvarint_enc n))%nat.
+Proof.
+  unfold uvarint_enc. destruct (N.to_nat (N.log2 n)); cbn [uvarint_enc_fuel]; [cbn; lia|].
+  destruct (n <? 128); cbn; lia.
+Qed.
+
+Lemma tt_serialize_eq m d n v ch :
+  tt_serialize m d (TT n v ch) =
+  uvarint_enc (Nlen n) ++ n ++ uvarint_enc (tt_scale_val m d v) ++ uvarint_enc (Nlen ch)
+    ++ flat_map (tt_serialize m d) ch.
+Proof. reflexivity. Qed.
+
+Lemma tt_serialize_len m d t : (1 <= length (tt_serialize m d t))%nat.
+Proof. destruct t. rewrite tt_serialize_eq, app_length. pose proof (uvarint_enc_len (Nlen name)). lia. Qed.
+
+Lemma flat_map_ser_len m d ch : (length ch <= length (flat_map (tt_serialize m d) ch))%nat.
+Proof.
+  induction ch as [|c ch IH]; [cbn; lia|]. cbn [flat_map length]. rewrite app_length.
+  pose proof (tt_serialize_len m d c). lia.
+Qed.
+
+Lemma child_ser_len m d c ch : In c ch -> (length (tt_serialize m d c) <= length (flat_map (tt_serialize m d) ch))%nat.
+Proof.
+  induction ch as [|x ch IH]; intros H; [destruct H|]. cbn [flat_map]. rewrite app_length.
+  destruct H as [->|H]; [lia|]. specialize (IH H). lia.
+Qed.
+
+Definition tt_sim (a b : ttnode) : Prop :=
+  tt_wf a /\ tt_name a = tt_name b /\ forall k, tt_den a k = tt_den b k.
+
+Definition parses_back (m d : N) (f : nat) (c : ttnode) : Prop :=
+  forall rest, (length (tt_serialize m d c) < f)%nat -> tt_wf c -> tt_fitsb m d c = true ->
+    exists c', tt_parse f (tt_serialize m d c ++ rest) = Some (c', rest) /\
+               tt_sim c' (tt_map_values (tt_scale_val m d) c).
+
+Lemma under_sim a b k : tt_name a = tt_name b -> (forall r, tt_den a r = tt_den b r) -> under a k = under b k.
+Proof. intros Hn Hd. unfold under. rewrite Hn. destruct (strip_prefix (tt_name b) k); auto. Qed.
+
+Lemma parse_kids_spec m d f : forall cs acc rest,
+  Forall (parses_back m d f) cs -> Forall tt_wf cs -> Forall (fun c => tt_fitsb m d c = true) cs ->
+  (forall c, In c cs -> (length (tt_serialize m d c) < f)%nat) -> Forall tt_wf acc ->
+  exists chs, parse_kids f (length cs) acc (flat_map (tt_serialize m d) cs ++ rest) = Some (chs, rest) /\
+    Permutation (fbs chs) (fbs cs ++ fbs acc) /\ Forall tt_wf chs /\
+    forall k, den_ch chs k = den_ch acc k + den_ch (map (tt_map_values (tt_scale_val m d)) cs) k.
+Proof.
+  induction cs as [|c cs IH]; intros acc rest HP Hwf Hfit Hlen Hacc.
+  - exists acc. cbn. repeat split; [reflexivity|exact Hacc|]. intros k. cbn [map]. replace (den_ch [] k) with 0 by reflexivity. lia.
+  - inversion HP as [|? ? HPc HPcs]; subst. inversion Hwf as [|? ? Hwc Hwcs]; subst.
+    inversion Hfit as [|? ? Hfc Hfcs]; subst.
+    cbn [flat_map length parse_kids]. rewrite <- app_assoc.
+    destruct (HPc (flat_map (tt_serialize m d) cs ++ rest)) as (c' & Hp & Hs1 & Hs2 & Hs3);
+      [apply Hlen; now left|exact Hwc|exact Hfc|].
+    rewrite Hp.
+    destruct (IH (ch_insert c' acc) rest HPcs Hwcs Hfcs) as (chs & Hk & Hperm & Hwchs & Hden).
+    { intros x Hx. apply Hlen. now right. }
+    { unfold ch_insert, ch_insert_named, ch_insert_at.
+      rewrite <- (firstn_skipn (ch_pos (tt_name c') acc) acc) in Hacc.
+      apply Forall_app in Hacc. destruct Hacc as [A1 A2]. apply Forall_app. split; [exact A1|].
+      constructor; assumption. }
+    exists chs. split; [exact Hk|]. split; [|split; [exact Hwchs|]].
+    + rewrite Hperm. unfold ch_insert, ch_insert_named. rewrite fbs_insert_at_perm.
+      cbn [fbs map]. fold (fbs cs).
+      assert (Hfc' : first_byte c' = first_byte c).
+      { unfold first_byte. rewrite Hs2, tt_map_values_name. reflexivity. }
+      rewrite Hfc'. symmetry. apply Permutation_middle.
+    + intros k. rewrite Hden. unfold ch_insert, ch_insert_named. rewrite den_ch_insert_at.
+      cbn [map]. rewrite den_ch_cons. rewrite (under_sim c' _ k Hs2 Hs3). lia.
+Qed.
+
+Lemma tt_fitsb_unfold m d n v ch :
+  tt_fitsb m d (TT n v ch) = true ->
+  Nlen n < 2 ^ 64 /\ tt_scale_val m d v < 2 ^ 64 /\ Nlen ch < 2 ^ 64 /\ Forall (fun c => tt_fitsb m d c = true) ch.
+Proof.
+  cbn [tt_fitsb]. rewrite !andb_true_iff, !N.ltb_lt, forallb_forall, Forall_forall. tauto.
+Qed.
+
+Lemma tt_parse_serialize m d t : forall f, parses_back m d f t.
+Proof.
+  induction t as [n v ch IH] using ttnode_ind'. intros f rest Hlen Hwf Hfit.
+  destruct f as [|f]; [lia|].
+  apply tt_fitsb_unfold in Hfit. destruct Hfit as (F1 & F2 & F3 & F4).
+  pose proof Hwf as Hwf0. apply tt_wf_unfold in Hwf. destruct Hwf as [[Hn Hd] Hall].
+  rewrite tt_serialize_eq in *. rewrite !app_length in Hlen.
+  rewrite <- !app_assoc. rewrite tt_parse_S.
+  rewrite uvarint_roundtrip by exact F1.
+  replace (Nlen (n ++ _) <? Nlen n) with false
+    by (symmetry; apply N.ltb_ge; unfold Nlen; rewrite app_length; lia).
+  replace (N.to_nat (Nlen n)) with (length n) by (unfold Nlen; now rewrite Nat2N.id).
+  rewrite take_bytes_app.
+  rewrite uvarint_roundtrip by exact F2.
+  rewrite uvarint_roundtrip by exact F3.
+  replace (Nlen (flat_map _ ch ++ rest) <? Nlen ch) with false
+    by (symmetry; apply N.ltb_ge; unfold Nlen; rewrite app_length; pose proof (flat_map_ser_len m d ch); lia).
+  replace (N.to_nat (Nlen ch)) with (length ch) by (unfold Nlen; now rewrite Nat2N.id).
+  destruct (parse_kids_spec m d f ch [] rest) as (chs & Hk & Hperm & Hwchs & Hden);
+    try assumption; try constructor.
+  { rewrite Forall_forall in *. intros c Hc. apply IH, Hc. }
+  { intros c Hc. pose proof (child_ser_len m d c ch Hc).
+    pose proof (uvarint_enc_len (Nlen n)). pose proof (uvarint_enc_len (tt_scale_val m d v)).
+    pose proof (uvarint_enc_len (Nlen ch)). lia. }
+  rewrite Hk. eexists. split; [reflexivity|].
+  rewrite app_nil_r in Hperm.
+  split; [|split; [reflexivity|]].
+  - apply tt_wf_unfold. split; [split|exact Hwchs].
+    + intros H. apply Hn. eapply Permutation_in; [exact Hperm|exact H].
+    + eapply Permutation_NoDup; [symmetry; exact Hperm|exact Hd].
+  - intros k. cbn [tt_map_values]. rewrite !tt_den_unfold, Hden. unfold den_ch at 1. cbn. lia.
+Qed.
+
+Theorem tt_deserialize_serialize m d t :
+  tt_wf t -> tt_fitsb m d t = true ->
+  exists t', tt_deserialize (tt_serialize m d t) = Some t' /\ tt_sim t' (tt_map_values (tt_scale_val m d) t).
+Proof.
+  intros Hwf Hfit. unfold tt_deserialize.
+  destruct (tt_parse_serialize m d t (S (length (tt_serialize m d t))) []) as (t' & Hp & Hs); try assumption; [lia|].
+  rewrite app_nil_r in Hp. rewrite Hp. exists t'. split; [reflexivity|exact Hs].
+Qed.
+
+Lemma tt_scale_val_0 m d : tt_scale_val m d 0 = 0.
+Proof. unfold tt_scale_val. destruct (_ || _); reflexivity. Qed.
+
+(* scaling on serialization floors each count; the decoded trie reports exactly the scaled counts *)
+Lemma ttrie_serialize_scaled : forall m d t,
+  tt_wf t -> tt_name t = [] -> tt_fitsb m d t = true ->
+  exists t', tt_deserialize (tt_serialize m d t) = Some t' /\ tt_wf t' /\ tt_name t' = [] /\
+    (forall k, tt_den t' k = tt_scale_val m d (tt_den t k)) /\
+    (forall K v, In (K, v) (tt_iterate t') <-> (0 < v /\ v = tt_scale_val m d (tt_den t K))).
+Proof.
+  intros m d t Hwf Hroot Hfit.
+  destruct (tt_deserialize_serialize m d t Hwf Hfit) as (t' & Hd & Hw & Hn & Hden).
+  rewrite tt_map_values_name, Hroot in Hn.
+  assert (Hden' : forall k, tt_den t' k = tt_scale_val m d (tt_den t k)).
+  { intros k. rewrite Hden. apply tt_map_values_den; [apply tt_scale_val_0|exact Hwf]. }
+  exists t'. repeat split; try assumption.
+  - apply tt_iterate_spec in H; try assumption. tauto.
+  - apply tt_iterate_spec in H; try assumption. destruct H. now rewrite <- Hden'.
+  - intros [H1 H2]. apply tt_iterate_spec; try assumption. split; [exact H1|]. now rewrite Hden'.
+Qed.
+
+Lemma tt_scale_val_11 v : tt_scale_val 1 1 v = v.
+Proof. reflexivity. Qed.
+
+(* the wire format loses nothing: the decoded trie stores and reports the same counts *)
+Lemma ttrie_roundtrip : forall t,
+  tt_wf t -> tt_name t = [] -> tt_fitsb 1 1 t = true ->
+  exists t', tt_deserialize (tt_serialize 1 1 t) = Some t' /\ tt_wf t' /\ tt_name t' = [] /\
+    (forall k, tt_den t' k = tt_den t k) /\
+    (forall K v, In (K, v) (tt_iterate t') <-> In (K, v) (tt_iterate t)).
+Proof.
+  intros t Hwf Hroot Hfit.
+  destruct (ttrie_serialize_scaled 1 1 t Hwf Hroot Hfit) as (t' & H1 & H2 & H3 & H4 & H5).
+  exists t'. repeat split; try assumption.
+  - intros H. apply H5 in H. apply tt_iterate_spec; try assumption. rewrite tt_scale_val_11 in H. destruct H; split; congruence.
+  - intros H. apply H5. apply tt_iterate_spec in H; try assumption. rewrite tt_scale_val_11. destruct H; split; congruence.
+Qed.
